@@ -8,7 +8,9 @@ PROP = "C13"
 def run(tier):
     rep = vlib.Report(PROP, tier)
     binary = vlib.build_harness()
-    common.mc_replay(rep, binary, PROP, "MC_C13", keyf=common.default_key)
+    d, cases, outs = common.mc_replay(rep, binary, PROP, "MC_C13", keyf=common.default_key)
+    # (b) impl -> spec: value-level mutations of the accepted key-exchange encodings, compared with the specification's answer
+    common.dfuzz(rep, binary, PROP, cases, 3000 if tier != "thorough" else 60000)
     return rep.finish("model_checking",
                       "cases = RFC encodings of ServerDHParams (field lengths 0/1/255/256/65535), ECPoint, ECParameters (named "
                       "groups, explicit prime), ServerECDHParams, both DigitallySigned forms, with suffixes; every strict prefix of the "
